@@ -75,6 +75,8 @@ def gen_enum(rng, idx, n_enabled, placement, generics, kinds, robust=False):
             import random as _r
             ir = _r.Random("c05-inh-%s-%d" % (name, vi))
             tys = ["Inh" if (ir.random() < 0.12 and t not in ("T", "U", "NoDefault", "Arr<K>")) else t for t in tys]
+            # ... and one whose Default panics while the simulator arms it (injected fault in user code)
+            tys = ["Bomb" if (ir.random() < 0.1 and t not in ("T", "U", "NoDefault", "Arr<K>", "Inh")) else t for t in tys]
         extra = ""
         if not dis and not noise.MINIMAL[0] and kind == "tuple" and nf == 1 and tys[0] in ("u8", "String", "Seven") and rng.random() < 0.3:
             # default_with belongs to EnumString: the iterator still yields Default::default() payloads
@@ -282,7 +284,7 @@ def generate(rng, seed, size):
     out = []
     out.append("// @generated by /verif/gen/gen_corpus.py --seed %d (engine c05, size %s). Do not edit.\n" % (seed, size))
     out.append("use strum::EnumIter;\n")
-    out.append("use strum_sim::c05::{mk, Arr, Case, Inh, IterHandle, NoDefault, NotSendSync, Seven, P};\n\n")
+    out.append("use strum_sim::c05::{mk, Arr, Bomb, Case, Inh, IterHandle, NoDefault, NotSendSync, Seven, P};\n\n")
     out.append("fn dw_u8() -> u8 { 99 }\nfn dw_string() -> String { String::from(\"not the default\") }\nfn dw_seven() -> Seven { Seven(-1) }\n\n")
     cases = []
     probes = []
